@@ -137,6 +137,10 @@ def main():
         pth = os.path.join(outdir, "w%d.json" % w)
         if os.path.exists(pth):
             sums.append(json.load(open(pth)))
+    # a worker that wrote its summary has finished its batch; a non-zero exit status then only means that the test
+    # binary marked the run as failed (the race detector does that), which the summary already reports as a violation
+    if len(sums) == workers:
+        failed = []
     if failed or len(sums) != workers:
         tail = ""
         for w, rc in failed[:2]:
